@@ -2052,7 +2052,9 @@ REQUEST-STATUS:5.1;Service unavailable\n\
 
 	nwr += fdwrite(rpl_veh, strlenof(rpl_veh));
 
-	nwr += fdprintf("UID:%s\n", obint_name(ins.o));
+	/* a request without UID is answered without one, obint_name(0)
+	 * is the first UID anybody ever sent us */
+	nwr += fdprintf("UID:%s\n", ins.o ? obint_name(ins.o) : "");
 	nwr += fdprintf("DTSTAMP:%s\n", stmp);
 	nwr += fdprintf("ATTENDEE:echse\n");
 	switch (ins.v) {
